@@ -30,6 +30,12 @@ class FaultInjected(Exception):
     """Raised by an instrumented user function at the scripted call (C11)."""
 
 
+# A user function may raise anything; the library's own handlers (KeyError for unknown names, ValueError, ...) must not
+# mistake the user's exception for one of theirs.  The class is chosen by the fault point.
+FAULT_CLASSES = [FaultInjected] + [type("Fault" + b.__name__, (FaultInjected, b), {}) for b in (
+    KeyError, ValueError, TypeError, IndexError, AttributeError, ZeroDivisionError, NameError, LookupError, ArithmeticError)]
+
+
 def make_funcs(fault=None, log=None):
     """User functions with a call log and optional fault injection.  A fault point is (tag,
     occurrence): the occurrence-th call of <func>f whose keyword argument k equals tag raises.
@@ -43,7 +49,7 @@ def make_funcs(fault=None, log=None):
         if log is not None:
             log.append(("<func>f", k, counts[k]))
         if fault is not None and tuple(fault) == (k, counts[k]):
-            exc = FaultInjected("<func>f k=%d #%d" % (k, counts[k]))
+            exc = FAULT_CLASSES[(k + counts[k]) % len(FAULT_CLASSES)]("<func>f k=%d #%d" % (k, counts[k]))
             state["raised"] = exc
             raise exc
         return func_f(x, k, m)
